@@ -345,10 +345,13 @@ AltsOf(s, c) ==
 Emit(rec) == IF EdgeFile = "" THEN TRUE ELSE CSVWrite("%1$s", <<ToJson(rec)>>, EdgeFile)
 
 \* the handle profile starts with one three-byte file
+HandlesHist == <<[C0 EXCEPT !.op = "writefile", !.p = FA, !.data = <<1, 2, 3, 9, 9>>, !.perm = 420],
+                 [C0 EXCEPT !.op = "truncate", !.p = FA, !.n = 3],
+                 [C0 EXCEPT !.op = "chdir", !.p = WorkP]>>
 InitFor ==
     IF Profile = "handles"
-    THEN Chdir(WriteFile(InitSt, [C0 EXCEPT !.op = "writefile", !.p = FA, !.data = <<1, 2, 3>>, !.perm = 420]).st,
-               [C0 EXCEPT !.op = "chdir", !.p = WorkP]).st
+    \* (the three-byte file is what is left of a longer one: stale bytes behind the end must never come back)
+    THEN RunCalls(InitSt, HandlesHist)
     ELSE InitSt
 
 Init ==
@@ -363,8 +366,7 @@ Init ==
 \* configured profiles issue exactly one call from each initial state
 Budget == IF Profile \in {"symq", "symchain", "perm1", "perm2"} THEN 1 ELSE MaxLen
 
-EmitHist == IF Profile = "handles" THEN <<[C0 EXCEPT !.op = "writefile", !.p = FA, !.data = <<1, 2, 3>>, !.perm = 420],
-                                           [C0 EXCEPT !.op = "chdir", !.p = WorkP]>> \o hist ELSE hist
+EmitHist == IF Profile = "handles" THEN HandlesHist \o hist ELSE hist
 
 Next ==
     /\ (IF Profile \in {"symq", "symchain", "perm1", "perm2"} THEN last.call.op = ""
